@@ -1054,9 +1054,10 @@ class PandasModelBase(
         self.drop_indices(res)
         if scratch_col is not None:
             del res[scratch_col]
-        on_a_set = set(op.on_a)
         for c in common_cols:
-            if c not in on_a_set:
+            if (c + "_tmp_right_col") in res.columns:
+                # a shared column pandas did not merge itself (a non-key column, or a key column of one side that
+                # the other side carries as a non-key column)
                 # left value, else right value (combine_first also reconciles the two column types)
                 res[c] = res[c].combine_first(res[c + "_tmp_right_col"])
                 res = res.drop(c + "_tmp_right_col", axis=1, inplace=False)
